@@ -42,6 +42,10 @@ def mc_cases(tier, name="doc-mc"):
     for raw in tlc.parse_tuples(out, "TEXT"):
         v = tlc.tla_value(raw)
         texts[(v[1], v[2], v[3], v[4])] = v[5]
+    for raw in tlc.parse_tuples(out, "TEXTP"):     # pieces: strings and code-point sequences
+        v = tlc.tla_value(raw)
+        texts[(v[1], v[2], v[3], v[4])] = "".join(
+            p if isinstance(p, str) else "".join(chr(c) for c in p) for p in v[5])
     cfgsets = {}
     for raw in tlc.parse_tuples(out, "CFGS"):
         v = tlc.tla_value(raw)
@@ -78,7 +82,17 @@ def mc_cases(tier, name="doc-mc"):
     st = tlc.stats(out)
     if st is None or st[1] != len(jobs):
         raise MachineryError("MC_Doc: %s distinct states but %d cases parsed" % (st, len(jobs)))
+    if not _utf8_files():
+        # files are read/written by gfapy in the locale's encoding: non-ASCII content would test the
+        # locale, not gfapy
+        jobs = [j for j in jobs if all(x.isascii() for x in j["lines"])]
+        meta["dropped_non_ascii"] = True
     return jobs, st, meta
+
+
+def _utf8_files():
+    import locale
+    return locale.getpreferredencoding(False).lower().replace("-", "") == "utf8"
 
 
 # --------------------------------------------------------------------------
@@ -251,12 +265,23 @@ def tag_struct(t):
     return dict(n=n, t=ty, v=ty + ":" + val, sub="", el=[])
 
 
+CP_MARK = "<cp>"
+
+
+def _plain(x):
+    return all(c == "\t" or " " <= c <= "~" for c in x)
+
+
 def abstract(text, ver):
     r = project.abstract_text(text, version=ver)
+    # content outside printable ASCII / tab travels as code points (TLC strings cannot be inspected
+    # and control characters cannot be written in a TLA+ module)
+    fc = [[] if _plain(x) else [ord(c) for c in x] for x in r["f"]]
+    r["f"] = [x if not c else CP_MARK for x, c in zip(r["f"], fc)]
     tags = [t for t in r["tags"]]
     tg = [tag_struct(t) if project.TAG_RE.match(t) else dict(n="??", t="?", v=t, sub="", el=[])
           for t in tags]
-    return dict(rt=r["rt"], name=r["name"], refs=r["refs"], f=r["f"], num=r["num"], ovs=r["ovs"], tg=tg)
+    return dict(rt=r["rt"], name=r["name"], refs=r["refs"], f=r["f"], fc=fc, num=r["num"], ovs=r["ovs"], tg=tg)
 
 
 class Shard:
@@ -340,6 +365,9 @@ def validate(groups, name, nshards=None):
 # --------------------------------------------------------------------------
 # seeded random documents
 
+# content characters that some text tools take for line boundaries (see Doc!SplitChars)
+SPLIT_ASCII = ["\x0b", "\x0c", "\x1c", "\x1d", "\x1e"]
+SPLIT_WIDE = ["\x85", "\u2028", "\u2029"]
 A_CHARS = [chr(c) for c in range(33, 127)]
 Z_CHARS = [chr(c) for c in range(32, 127)]
 B_RANGE = {"c": (-128, 127), "C": (0, 255), "s": (-2 ** 15, 2 ** 15 - 1), "S": (0, 2 ** 16 - 1),
@@ -449,7 +477,8 @@ def random_doc(rnd, ver):
         L.append("\t".join(["H"] + hdr[:k]))
         hdr = hdr[k:]
     for _ in range(rnd.randint(0, 2)):
-        L.append("#" + "".join(rnd.choice(Z_CHARS + ["\t"]) for _ in range(rnd.randint(0, 15))))
+        alpha = Z_CHARS + ["\t"] + (SPLIT_ASCII + (SPLIT_WIDE if _utf8_files() else [])) * (4 if rnd.random() < 0.3 else 0)
+        L.append("#" + "".join(rnd.choice(alpha) for _ in range(rnd.randint(0, 15))))
     if ver == "gfa1":
         for s in segs:
             seq = rnd.choice(["*", "".join(rnd.choice("ACGTacgtN") for _ in range(rnd.randint(1, 12)))])
@@ -567,7 +596,9 @@ def random_doc(rnd, ver):
             if nm != "*":
                 unames.append(nm)
         for i in range(rnd.randint(0, 2)):
-            add([rnd.choice("XYZ"), "f%d" % i] + ["v%d" % rnd.randint(0, 99) for _ in range(rnd.randint(0, 2))])
+            add([rnd.choice("XYZ"), "f%d" % i] +
+                ["v%d" % rnd.randint(0, 99) + (rnd.choice(SPLIT_ASCII) + "w" if rnd.random() < 0.15 else "")
+                 for _ in range(rnd.randint(0, 2))])
     rnd.shuffle(L)
     return L
 
@@ -665,6 +696,7 @@ def check_c01(out, tier, seed):
     rts, dts, entries, vlevels, vmodes = {}, {}, {}, {}, {}
     docs = set()
     maxenum = maxrand = 0
+    nspecial = nspecial_runs = 0
     rejects, kept = [], {}
     samples = []
     for c0 in range(0, len(alljobs), CHUNK):
@@ -698,6 +730,9 @@ def check_c01(out, tier, seed):
                 for y in f[1:]:
                     if project.TAG_RE.match(y):
                         dts[y[3]] = dts.get(y[3], 0) + 1
+            if not all(_plain(x) for x in g["lines"]):
+                nspecial += 1
+                nspecial_runs += len(g["runs"])
             if g["kind"] == "enum":
                 docs.add((g["ver"], tuple(sorted(g["cat"]["doc"]))))
                 maxenum = max(maxenum, len(g["lines"]))
@@ -722,6 +757,7 @@ def check_c01(out, tier, seed):
                 documents=len(docs), groups_enumerated=len(jobs), groups_random=len(rjobs),
                 mc_states_generated=st[0], mc_states_distinct=st[1], groups_judged_by_tlc=ngroups,
                 distinct_outcomes_judged=nouts, max_lines_enumerated=maxenum, max_lines_random=maxrand,
+                groups_with_special_characters=nspecial, evaluations_with_special_characters=nspecial_runs,
                 exhaustive=False)
     out.cov["bounds"] = dict(TIERS[tier], catalogue_lines={"gfa1": len(meta["rts"][1]), "gfa2": len(meta["rts"][2])},
                              tag_variants=meta["nvar"])
@@ -751,6 +787,10 @@ def check_c01(out, tier, seed):
         "same-identifier U lines are one record (items concatenated, tags united); both the merged and the "
         "unmerged form are accepted",
         "the integer subtype letter of a B array is a spelling (documented as recomputed from the range)",
+        "VT FF FS GS RS NEL LS PS are content of a comment ('any text up to the end of the line'); the ASCII ones "
+        "also of a custom-record field (no grammar in the GFA2 specification, gfapy's generic datatype excludes "
+        "only tab and newline); CR/LF are terminators and never content; non-ASCII content is used only when the "
+        "locale's file encoding is UTF-8",
         "documents outside the catalogue are covered only by the seeded random driver (<= ~25 lines); "
         "floats outside the spelling table are held to the fixed point only",
     ]
@@ -794,7 +834,8 @@ def selftest():
                   "L\tA\t+\tB\t+\t2M1D1M\tbb:B:i,1,2", "L\tB\t-\tA\t-\t1M1I2M", "P\tp1\tA+,B+\t2M1D1M\tjb:J:{\"a\":1}",
                   "# comment"]),
         ("gfa2", ["S\ta\t4\tACGT", "S\tb\t6\t*\tha:H:1AE3", "E\te1\ta+\tb+\t2\t4$\t0\t2\t2M\taa:A:x",
-                  "O\to1\ta+ b+", "U\tu3\ta", "U\tu3\tb\tfd:f:0.1234567891", "X\tcustom\t1\tic:i:-0"]),
+                  "O\to1\ta+ b+", "U\tu3\ta", "U\tu3\tb\tfd:f:0.1234567891", "X\tcustom\t1\tic:i:-0",
+                  "# a\x0cb\u2028c", "Y\tp\x1cq\tr"]),
     ]
     base = []
     for i, (ver, lines) in enumerate(docs):
@@ -847,6 +888,15 @@ def selftest():
             (mut(g, "refused", lambda o: o.__setitem__("res", "Error")), "C01.refused"),
             (mut(g, "foreign", lambda o: o.__setitem__("res", "FOREIGN")), "foreign"),
         ]
+        if ver == "gfa2":
+            # what a reader that takes FF / FS for a line boundary would produce
+            def cut(ls):
+                out = []
+                for x in ls:
+                    out += x.replace("\x0c", "\n").replace("\x1c", "\n").split("\n")
+                return out
+            muts.append((mut(g, "cut", lambda o: each(o, cut)), "C01.added"))
+            muts.append((mut(g, "ctrl", lambda o: each(o, lambda ls: [x.replace("\x0c", "\x0b") for x in ls])), "C01.field"))
         if ver == "gfa1":
             muts.append((mut(g, "header", lambda o: each(o, lambda ls: [x.replace("ia:i:5", "ia:i:6") for x in ls])), "C01.header"))
             muts.append((mut(g, "bothlinks", lambda o: each(o, lambda ls: ls + ["L\tB\t-\tA\t-\t1M1I2M"])), "C01.added"))
